@@ -209,7 +209,7 @@ def write_if_changed(path, text):
 
 
 # companion theorem files of a property (integrated ones only; Props/ may hold files still being written)
-COMPANIONS = {"C01": ["C02Fast", "C01Gen", "C01WassGen"], "C13": ["C02Fast", "C13Wass", "C01Gen", "C01WassGen"], "C02": ["C02Wass", "C02Fast", "C01Gen", "C01WassGen"], "C03": ["C03Douglas", "C03Gen", "C15Gen"], "C05": ["C05Gen"], "C06": ["C05Gen"], "C08": ["C08Max", "C08Stocks"], "C09": ["C09Spec"], "C17": ["C01Gen", "C05Gen", "C01WassGen"], "C19": ["C19Names"], "C11": ["C11Cong"], "C15": ["C15Gen"], "C18": ["C15Gen"]}
+COMPANIONS = {"C01": ["C02Fast", "C01Gen", "C01WassGen"], "C13": ["C02Fast", "C13Wass", "C01Gen", "C01WassGen"], "C02": ["C02Wass", "C02Fast", "C01Gen", "C01WassGen"], "C03": ["C03Douglas", "C03Gen", "C15Gen", "C03Optim"], "C05": ["C05Gen"], "C06": ["C05Gen"], "C08": ["C08Max", "C08Stocks"], "C09": ["C09Spec"], "C17": ["C01Gen", "C05Gen", "C01WassGen"], "C19": ["C19Names"], "C11": ["C11Cong"], "C15": ["C15Gen"], "C18": ["C15Gen"]}
 
 
 def prove(prop, modules=None):
